@@ -43,16 +43,17 @@ def edge_symmetry(ctx: Ctx, rule: str) -> None:
         if v.path.exit == "raise":
             continue
         n += 1
-        s_stores = [s for i, s in v.stmts(lambda s: isinstance(s, ast.Assign) and isinstance(s.targets[0], ast.Subscript)
-                                          and ast.unparse(s.targets[0].value) == "self._setup_nodes")]
-        c_stores = [s for i, s in v.stmts(lambda s: isinstance(s, ast.Assign) and isinstance(s.targets[0], ast.Subscript)
-                                          and ast.unparse(s.targets[0].value) == f"{par}._cleanup_nodes")]
+        s_stores = [(i, s) for i, s in v.stmts(lambda s: isinstance(s, ast.Assign) and isinstance(s.targets[0], ast.Subscript)
+                                               and ast.unparse(s.targets[0].value) == "self._setup_nodes")]
+        c_stores = [(i, s) for i, s in v.stmts(lambda s: isinstance(s, ast.Assign) and isinstance(s.targets[0], ast.Subscript)
+                                               and ast.unparse(s.targets[0].value) == f"{par}._cleanup_nodes")]
         if len(s_stores) != 1 or len(c_stores) != 1:
             problems.append((f"a path records the dependency on {len(s_stores)} child side(s) and {len(c_stores)} parent side(s)", v))
             continue
-        s, c = s_stores[0], c_stores[0]
-        ok_s = ast.unparse(s.targets[0].slice) == par and ast.unparse(s.value) == f"self._setup_nodes.get({par}, set()) | {{{obj}}}"
-        ok_c = ast.unparse(c.targets[0].slice) == "self" and ast.unparse(c.value) == f"{par}._cleanup_nodes.get(self, set()) | {{{obj}}}"
+        (si, s), (ci, c) = s_stores[0], c_stores[0]
+        # values with the path's locals substituted (a hoisted `{obj}` literal is the literal)
+        ok_s = ast.unparse(s.targets[0].slice) == par and v.canon_text(s.value, si) == f"self._setup_nodes.get({par}, set()) | {{{obj}}}"
+        ok_c = ast.unparse(c.targets[0].slice) == "self" and v.canon_text(c.value, ci) == f"{par}._cleanup_nodes.get(self, set()) | {{{obj}}}"
         if not (ok_s and ok_c):
             problems.append((f"the two ends are not updated alike: {first_line(s)} / {first_line(c)}", v))
     ctx.record(rule, "PAIR", fref, f"every path: self._setup_nodes[{par}] |= {{{obj}}} and {par}._cleanup_nodes[self] |= {{{obj}}} (additive, same object)",
@@ -385,6 +386,10 @@ def branch_edges(ctx: Ctx, rule: str) -> None:
         # more_parents is substituted by its definition
         some2 = expr_formula(v, len(v.steps), "len(more_parents) > 0")
         many2 = expr_formula(v, len(v.steps), "len(more_parents) > 1")
+        # arithmetic the propositional layer does not know: more than one implies at least one
+        prem = norm.conj([prem, norm.disj([norm.neg(many2), some2]), norm.disj([norm.neg(many), some])])
+        if not norm.satisfiable(prem):
+            continue
         desc = [c for i, c in v.calls(is_call_named("descend_from_node"))]
         clon = [c for i, c in v.calls(is_call_named("parse_cloned_branches_for_node_and_object"))]
         regs = [(i, c) for i, c in v.calls(is_call_named("new_nodes"))]
